@@ -179,7 +179,7 @@ fn sign1(sp: &Spec) -> String {
     verdict(&o, seen, same)
 }
 
-fn sign(sp: &Spec) -> String {
+fn sign(sp: &Spec, templates: &HashMap<usize, Vec<u8>>) -> String {
     let mut b = CoseSignBuilder::new();
     let mut o = Outcome::default();
     #[allow(unused_mut, unused_variables)]
@@ -195,7 +195,16 @@ fn sign(sp: &Spec) -> String {
             4 => { cur_payload = format!("payload{}", i).into_bytes(); b = b.payload(cur_payload.clone()); has_payload = true; if o.created.is_some() { o.dirty = true; } }
             2 | 3 | 5 | 6 => {
                 let sig_hdr = palette_header(sp.get(&format!("hdr.sg{}", i)).unwrap_or(0), salt + 50);
-                let sig = CoseSignatureBuilder::new().protected(sig_hdr.clone()).build();
+                // the signature template: builder-made, or (wire-template histories) a COSE_Signature
+                // decoded from the given bytes, whose protected header keeps its wire bytes
+                let (sig, sig_prot_bytes): (CoseSignature, Option<Vec<u8>>) = match templates.get(&(i as usize)) {
+                    Some(bytes) => {
+                        let t = match CoseSignature::from_slice(bytes) { Ok(t) => t, Err(_) => return "BADTEMPLATE".into() };
+                        let raw = match Value::from_slice(bytes) { Ok(Value::Array(a)) => match a.first() { Some(Value::Bytes(b)) => b.clone(), _ => vec![] }, _ => vec![] };
+                        (t, Some(raw))
+                    }
+                    None => (CoseSignatureBuilder::new().protected(sig_hdr.clone()).build(), None),
+                };
                 let made = format!("made{}", i).into_bytes();
                 let fails = (k == 3 || k == 6) && sp.get(&format!("creator-fails{}", i)) == Some(1);
                 let mut saw = vec![];
@@ -226,7 +235,14 @@ fn sign(sp: &Spec) -> String {
                 n += 1;
                 o.detached = k == 5 || k == 6;
                 o.dirty = false;
-                o.want_created = Some(reference("Signature", &[&cur_prot, &sig_hdr], &[AAD, if o.detached { DET } else { &cur_payload }]));
+                o.want_created = Some(match &sig_prot_bytes {
+                    None => reference("Signature", &[&cur_prot, &sig_hdr], &[AAD, if o.detached { DET } else { &cur_payload }]),
+                    Some(raw) => {
+                        let body = if cur_prot == Header::default() { vec![] } else { cur_prot.clone().to_vec().unwrap() };
+                        ser(&Value::Array(vec![Value::Text("Signature".into()), Value::Bytes(body), Value::Bytes(raw.clone()),
+                                               Value::Bytes(AAD.to_vec()), Value::Bytes(if o.detached { DET.to_vec() } else { cur_payload.clone() })]))
+                    }
+                });
             }
             _ => {}
         }
@@ -417,9 +433,18 @@ fn recipient(sp: &Spec) -> String {
 
 pub fn run(p: &[&str]) -> String {
     let sp = parse(p[1]);
+    // optional third argument: signature templates decoded from the wire, "<step>:<hex>,..."
+    let mut templates: HashMap<usize, Vec<u8>> = HashMap::new();
+    if p.len() > 2 && p[2] != "-" {
+        for kv in p[2].split(',') {
+            let mut it = kv.split(':');
+            let k: usize = it.next().unwrap().parse().unwrap();
+            templates.insert(k, hex::decode(it.next().unwrap()).unwrap());
+        }
+    }
     match p[0] {
         "CoseSign1" => sign1(&sp),
-        "CoseSign" => sign(&sp),
+        "CoseSign" => sign(&sp, &templates),
         "CoseMac0" => mac0(&sp),
         "CoseMac" => mac(&sp),
         "CoseEncrypt0" => encrypt0(&sp),
